@@ -48,3 +48,28 @@ Proof.
   intros FO R tables HM HN b cfg r m mark. apply C07_text_after_mark. exact (sb_lazy_contract FO R tables HM HN).
 Qed.
 Print Assumptions C07_text_after_mark_single_byte_modelled.
+
+From Model Require Import F32 Pipeline Utf Codecs.
+From Proofs Require Import UtfFacts CodecFacts PipelineFacts UnicodeForms.
+Open Scope N_scope.
+
+(* with the codecs modelled the clause needs no LazyContract hypothesis *)
+Theorem C07_text_after_mark_pipeline :
+  forall (B : base_oracles) b cfg r m mark, b <> [] -> from_bytes F32ops (pipeline_dec B) b cfg = Ok r -> In m r ->
+    identify_sig b = Some (m_enc F32ops m, mark) ->
+    exists t, m_text F32ops m = Some t /\ sdecode F32ops (pipeline_dec B) (m_enc F32ops m) (skipn (List.length mark) b) = Some t.
+Proof. intros B b cfg r m mark. apply C07_text_after_mark. exact (pipeline_dec_lazy_contract B). Qed.
+Print Assumptions C07_text_after_mark_pipeline.
+
+(* the marks ARE the encodings of U+FEFF, and what follows a mark decodes to the text it encodes: a marked
+   UTF-16 / UTF-8 input exposes exactly the characters after the mark *)
+Theorem C07_marks_encode_feff :
+  utf8_encode [65279] = [239; 187; 191] /\ utf16_encode false [65279] = [255; 254] /\ utf16_encode true [65279] = [254; 255].
+Proof. repeat split; vm_compute; reflexivity. Qed.
+Print Assumptions C07_marks_encode_feff.
+
+Theorem C07_marked_unicode_input_exposes_the_text_after_the_mark :
+  forall (B : base_oracles) t b e, Forall scalar t -> unicode_form t b e ->
+    sdecode F32ops (pipeline_dec B) e (strip b e) = Some t.
+Proof. exact unicode_form_decodes. Qed.
+Print Assumptions C07_marked_unicode_input_exposes_the_text_after_the_mark.
